@@ -23,7 +23,7 @@
 (***************************************************************************)
 EXTENDS Naturals, Integers, Sequences, FiniteSets, SequencesExt, TLC
 
-CONSTANTS Num10, Num16, NumC, DecStr, HexStr, StrRank, NumF, NormF, FCanon
+CONSTANTS Num10, Num16, NumC, DecStr, HexStr, StrRank, NumF, NormF, FCanon, HexPfx
 INSTANCE KStore
 KO == INSTANCE KOutputs
 
